@@ -280,6 +280,14 @@ class Gen:
             lambda: (lambda t: (t, t, {"x": t}))((1, [2])),
             lambda: (lambda e: [e, e, e])([]),
             lambda: (lambda s_: [s_, {"k": s_}])({1, 2}),
+            # wide containers (the loader is a stack machine: tuples/sets push all their members first)
+            lambda: tuple(range(r.choice((999, 1000, 1001, 1500, 5000)))),
+            lambda: set(range(r.choice((1001, 1200, 3000)))),
+            lambda: frozenset(range(-600, r.choice((600, 2000)))),
+            lambda: list(range(r.choice((1001, 4000)))),
+            lambda: {i: str(i) for i in range(r.choice((1001, 2500)))},
+            lambda: {tuple(range(1100)): (frozenset(range(1100)), [set(range(1050))])},
+            lambda: [tuple(range(40))] * 60,
         ]
         self._c("special")
         return shapes[i % len(shapes)]()
